@@ -50,6 +50,11 @@ pub enum Illegal {
     DuplicateImpl,
     /// reference to an item the imported package does not have
     UnknownItem,
+    /// impl of a foreign trait for a foreign *generic* type instantiated at a local type
+    OrphanImplGenericArg,
+    /// a file of a multi-file package uses a package that only its sibling files import
+    /// (0 = two-segment call, 1 = three-segment inherent path, 2 = three-segment trait path)
+    NotImportedInThisFile(u8),
 }
 
 #[derive(Clone, Copy, Debug, PartialEq, serde::Serialize, serde::Deserialize)]
@@ -70,7 +75,7 @@ pub enum Via {
     StructPattern,
 }
 
-pub const ILLEGAL_KINDS: [Illegal; 19] = [
+pub const ILLEGAL_KINDS: [Illegal; 23] = [
     Illegal::NotImported,
     Illegal::NotImportedVia(Via::SignatureType),
     Illegal::NotImportedVia(Via::LetAnnotation),
@@ -90,6 +95,10 @@ pub const ILLEGAL_KINDS: [Illegal; 19] = [
     Illegal::OrphanImpl,
     Illegal::DuplicateImpl,
     Illegal::UnknownItem,
+    Illegal::OrphanImplGenericArg,
+    Illegal::NotImportedInThisFile(0),
+    Illegal::NotImportedInThisFile(1),
+    Illegal::NotImportedInThisFile(2),
 ];
 
 fn reaches(proj: &Project, from: usize, to: usize) -> bool {
@@ -271,6 +280,57 @@ pub fn inject(proj: &Project, kind: &Illegal, p: &mut Prng) -> Option<(Files, Fi
             bad = twin.clone();
             bad.pkgs[pi].raw_last.push_str("\nimpl ZzT for ZzS {\n    fn zz(self: ZzS) -> int32 {\n        2\n    }\n}\n");
             desc = format!("{} implements ZzT for ZzS twice", proj.pkgs[pi].name);
+        }
+        Illegal::OrphanImplGenericArg => {
+            let mut cands = Vec::new();
+            for pi in 0..n {
+                if !proj.pkgs[pi].imports.is_empty() {
+                    cands.push(pi);
+                }
+            }
+            if cands.is_empty() {
+                return None;
+            }
+            let pi = *p.pick(&cands);
+            let qi = *p.pick(&proj.pkgs[pi].imports);
+            let ri = *p.pick(&proj.pkgs[pi].imports);
+            twin.pkgs[qi].raw.push_str("\ntrait ZzT {\n    fn zz(Self) -> int32;\n}\n");
+            twin.pkgs[ri].raw.push_str("\nstruct ZzG[T] {\n    v: T,\n}\n");
+            twin.pkgs[pi].raw.push_str("\nstruct ZzL {\n    x: int32,\n}\n");
+            bad = twin.clone();
+            let q = &proj.pkgs[qi].name;
+            let r = &proj.pkgs[ri].name;
+            bad.pkgs[pi].raw_last.push_str(&format!(
+                "\nimpl {q}::ZzT for {r}::ZzG[ZzL] {{\n    fn zz(self: {r}::ZzG[ZzL]) -> int32 {{\n        1\n    }}\n}}\n"
+            ));
+            desc = format!("{} implements foreign trait {q}::ZzT for foreign generic type {r}::ZzG instantiated at its own type ZzL", proj.pkgs[pi].name);
+        }
+        Illegal::NotImportedInThisFile(form) => {
+            let mut cands = Vec::new();
+            for pi in 0..n {
+                if proj.pkgs[pi].nfiles >= 2 {
+                    for &qi in &proj.pkgs[pi].imports {
+                        cands.push((pi, qi));
+                    }
+                }
+            }
+            if cands.is_empty() {
+                return None;
+            }
+            let (pi, qi) = *p.pick(&cands);
+            let qn = proj.pkgs[qi].name.clone();
+            twin.pkgs[qi].raw.push_str(
+                "\nstruct ZzS {\n    x: int32,\n}\n\ntrait ZzT {\n    fn zz(Self) -> int32;\n}\n\nimpl ZzT for ZzS {\n    fn zz(self: ZzS) -> int32 {\n        self.x\n    }\n}\n\nimpl ZzS {\n    fn zzn() -> int32 {\n        3\n    }\n}\n\nfn zz_pub() -> int32 {\n    7\n}\n\nfn zz_mk() -> ZzS {\n    ZzS { x: 1 }\n}\n",
+            );
+            let item = match form % 3 {
+                0 => format!("fn zz_use() -> int32 {{\n    {qn}::zz_pub()\n}}\n"),
+                1 => format!("fn zz_use() -> int32 {{\n    {qn}::ZzS::zzn()\n}}\n"),
+                _ => format!("fn zz_use() -> int32 {{\n    {qn}::ZzT::zz({qn}::zz_mk())\n}}\n"),
+            };
+            twin.pkgs[pi].raw_last.push_str(&format!("\n{item}"));
+            bad = twin.clone();
+            bad.pkgs[pi].omit_import_last = Some(qi);
+            desc = format!("the last file of {} uses {qn} (form {form}) but only its sibling files import {qn}", proj.pkgs[pi].name);
         }
         Illegal::UnknownItem => {
             let mut cands = Vec::new();
